@@ -58,13 +58,51 @@ def crafted_half_bounded():
     return out
 
 
+def crafted_permuted_parameters():
+    """two actions with the SAME body over like-named parameters declared in different orders (go(src, dst) / back(dst, src)): their
+    conditions and effects are the very same hash-consed expressions, only the binding of actual to formal parameters differs"""
+    from unified_planning.shortcuts import Problem, Fluent, InstantaneousAction, UserType, Object, BoolType, IntType, Not, GE
+    out = []
+    for numeric in (False, True):
+        pr = Problem("permuted_parameters" + ("_numeric" if numeric else ""))
+        L = UserType("Location")
+        ls = [Object(f"l{i}", L) for i in (1, 2, 3)]
+        pr.add_objects(ls)
+        at = Fluent("at", BoolType(), l=L)
+        pr.add_fluent(at, default_initial_value=False)
+        pr.set_initial_value(at(ls[0]), True)
+        load = Fluent("load", IntType(0, 5), l=L)
+        if numeric:
+            pr.add_fluent(load, default_initial_value=1)
+
+        def body(a):
+            src, dst = a.parameter("src"), a.parameter("dst")
+            a.add_precondition(at(src))
+            a.add_precondition(Not(at(dst)))
+            a.add_effect(at(src), False)
+            a.add_effect(at(dst), True)
+            if numeric:
+                a.add_precondition(GE(load(src), 1))
+                a.add_decrease_effect(load(src), 1)
+                a.add_increase_effect(load(dst), 1)
+        go = InstantaneousAction("go", src=L, dst=L)
+        back = InstantaneousAction("back", dst=L, src=L)
+        body(go)
+        body(back)
+        pr.add_action(go)
+        pr.add_action(back)
+        pr.add_goal(at(ls[0]))
+        out.append((9200000 + len(out), pr))
+    return out
+
+
 def bounded(tier, seed):
     from unified_planning.engines.plan_validator import SequentialPlanValidator, TimeTriggeredPlanValidator
     from unified_planning.engines.results import ValidationResultStatus
     from unified_planning.plans import SequentialPlan, TimeTriggeredPlan, ActionInstance
     nprob, maxlen, cap, nsched = (50, 2, 40, 2) if tier == "quick" else (400, 3, 100, 3)
     failures, evals, nontrivial, samples = [], 0, set(), []
-    for s, pr in itertools.chain(crafted_half_bounded(), SC.problems(seed + 29, nprob, features={"max_actions": 2})):
+    for s, pr in itertools.chain(crafted_half_bounded(), crafted_permuted_parameters(), SC.problems(seed + 29, nprob, features={"max_actions": 2})):
         if not SequentialPlanValidator.supports(pr.kind) or not TimeTriggeredPlanValidator.supports(pr.kind):
             continue
         gas = seqsem.ground_actions(pr)
@@ -109,7 +147,7 @@ def bounded(tier, seed):
         if len(failures) >= 5:
             break
     return {"evaluations": evals, "distinct_nontrivial": len(nontrivial), "failures": failures,
-            "rule": f"7 crafted problems over numeric types with a single bound (0 and non-0, int and real) + {nprob} generated problems, plans <= {maxlen} (sampled above {cap}), {nsched} schedules with pairwise "
+            "rule": f"7 crafted problems over numeric types with a single bound (0 and non-0, int and real) + 2 crafted problems with like-named parameters in permuted order (go(src,dst) / back(dst,src)) + {nprob} generated problems, plans <= {maxlen} (sampled above {cap}), {nsched} schedules with pairwise "
                     f"distinct rational start times each; non-trivial = distinct timed plan that is VALID",
             "samples": samples, "bound": f"plans <= {maxlen}, {nsched} schedules"}
 
